@@ -11,6 +11,7 @@ import (
 	"fmt"
 	"os"
 	"path/filepath"
+	"runtime"
 	"strconv"
 	"sync"
 	"time"
@@ -47,7 +48,18 @@ func main() {
 						}(k, op)
 					}
 					close(start)
-					wg.Wait()
+					done := make(chan struct{})
+					go func() { wg.Wait(); close(done) }()
+					select {
+					case <-done:
+					case <-time.After(20 * time.Second):
+						// a deadlock (or livelock): report the pair with all goroutine stacks and stop
+						buf := make([]byte, 1<<20)
+						n := runtime.Stack(buf, true)
+						fmt.Printf("HANG %s || %s (auto=%v)\n%s\nENDHANG\n", ops[i].Name, ops[j].Name, auto, buf[:n])
+						os.RemoveAll(root)
+						os.Exit(3)
+					}
 					runs++
 					for _, r := range res {
 						if r.Bad != "" {
